@@ -160,6 +160,7 @@ def run(ctx: Ctx, rep: Report) -> None:
     rep.rule("C14-R1", "every store to state shared between operations is a justified, operation-independent instance", floor=12)
     rep.rule("C14-R2", "no check-then-act across an await on shared locations", floor=7)
     rep.rule("C14-R3", "every exchange owns its endpoint, protocol object and future", floor=4)
+    rep.rule("C14-R4", "concurrent first use: whatever flags another task has set, a task reads the discovery cache only after it was filled (shared with C12-R1)", floor=3)
     rep.assumptions += [
         "asyncio runs one task at a time between awaits (cooperative scheduling)",
         "repeated engine discovery on concurrent first use is permitted by the property; the discovery data of one agent is interchangeable",
@@ -272,6 +273,11 @@ def run(ctx: Ctx, rep: Report) -> None:
         between = [a for a in await_nodes if tn is not None and gn is not None and a.id in cfg.reachable(tn) and gn.id in cfg.reachable(a) and a.id not in (tn.id,)]
         ok = not between
     rep.check(ok, "C14-R2", enc.site(), "the timing cache is written and read (set_engine_timing ... generate_request_message) without an await in between", key=f"{enc.key}|timing-cache-await")
+    from . import c12
+
+    sub = Report(rep.prop, rep.tier)
+    c12.run(ctx, sub)
+    rep.adopt_rules(sub, "C14-R4", ["C12-R1"])
     send = ctx.send_method()
     own_writes = [s for s in stores if s.fn == send]
     rep.check(not own_writes, "C14-R2", send.site(), "the sender-calling method keeps request id, PDU and response in locals only", f"{own_writes}", key=f"{send.key}|send-shared-write")
